@@ -48,6 +48,15 @@ CHECKS = {
  "C14": dict(level="exploration", design="3/C14", technique="exhaustive registry enumeration through the verif hook with strict reference interpreter, reference SGR interpreter and all ordered lookup pairs against a pristine snapshot",
     text="Every name/alias resolves with cursor addressing; every parameterized field passes strict evaluation with the parameters the library passes; colour count vs strings (every index interpreted); key prefix freedom; static strings tokenize; -256color/-truecolor synthesis vs base + standard strings; unknown names; COLORTERM/TCELL_TRUECOLOR matrix incl. screen-level effect; every ordered pair of lookups over ~300 names compared with a fresh lookup.",
     note="-256color synthesis only demanded for bases with a -color/-88color entry; other environments use a third of the universe as first lookups."),
+ "C17": dict(level="exploration", design="3/C17", technique="reference terminal with the harness's own legacy-charset decoders and acsc map, checking the display chain rune -> ACS glyph -> registered fallback -> '?' cell by cell, plus CanDisplay agreement",
+    text="Real terminfo screens under LC_ALL for each of 22 stateless legacy charsets + US-ASCII + UTF-8 on entries with and without an ACS map; every swept rune (quick: glyph/fallback tables, Latin, box drawing, a stride of the BMP; thorough: whole BMP) as narrow, wide and base+combining content; fallback registration histories incl. a second-screen probe.",
+    note="x/text codecs define the charsets; the glyph-name table maps acsc names to tcell's exported Rune* constants; registered fallbacks at most as wide as the cell."),
+ "C18": dict(level="exploration", design="3/C18", technique="lock-step shadow-model monitor on SimulationScreen (GetContents/GetCursor) and sentinel-delimited FIFO checks of injected events",
+    text="Seeded draw histories in UTF-8 and 9 legacy charsets with full-grid comparison of Runes/Style/Bytes after every Show/Sync, SetSize overlap + resize event, cursor query; InjectKey/InjectMouse batches and InjectKeyBytes of every character of each charset and of seeded strings ending in a multi-byte character, all delimited by a sentinel key so that no verdict depends on time.",
+    note="Column covered by a wide rune is don't-care; queue bounded by design so batches <= 10 with a concurrent poller."),
+ "C19": dict(level="exploration", design="3/C19", technique="js/wasm build of a monitor program run under Node with recording JavaScript stubs: shadow-model comparison of drawCell calls, callback table sweep, exhaustive lifecycle sequences with step-counted deadlock detection",
+    text="Compiles cmd/wasmchk for js/wasm against /repo (a compile error in tcell is the violation), then under Node: all 340 sequences over Suspend/Resume/SetSize/Fini up to length 4 with a Size() probe after each call (blocked = not finished after 2000 yields on the single thread); every WebKeyNames name x 16 modifier sets, mouse handlers x which x modifiers x 9 flag settings, paste/focus; seeded draw histories compared cell by cell and per-Show drawCell target sets.",
+    note="The real DOM code of tcell.js is not executed; mouse expectations restricted to unambiguous cases."),
 }
 PENDING = {}
 
